@@ -263,11 +263,16 @@ pub fn run(ctx: &mut Ctx) {
     }
     // long roots
     for id in ALL_CODECS {
-        let th = ctx.thorough();
-        let cases = ctx.cases(6, 8);
-        let op = (0..7u8, any::<u16>(), any::<u16>()).prop_map(|(form, a, b)| RangeOp { form, a, b });
-        let st = (gen::seq_spec_long(id, th), vec(op, 1..=3)).prop_map(move |(root, path)| Case { codec: id, root, path, oob: None });
-        ctx.forall(&format!("paths_long/{}", id.name()), cases, st, dispatch);
+        let lens = gen::long_lens(ctx.thorough());
+        ctx.forall_lens(
+            &format!("paths_long/{}", id.name()),
+            &lens,
+            |n| {
+                let op = (0..7u8, any::<u16>(), any::<u16>()).prop_map(|(form, a, b)| RangeOp { form, a, b });
+                (gen::seq_spec_n(id, n), vec(op, 1..=3)).prop_map(move |(root, path)| Case { codec: id, root, path, oob: None })
+            },
+            dispatch,
+        );
     }
     ctx.require_class("oob");
     ctx.require_class("oob_far");
